@@ -716,3 +716,6 @@ def c11(E, blt, opts, r):
         elif r3['status'] != 'timeout':
             out.append(V_('c11-withdrawn', "election with withdrawn candidates deleted ends with status %s" % r3['status'], **arith_sig(E)))
     return out
+
+# ------------------------------------------------------------------ C18: renderings (separate module)
+from oracles_render import *
